@@ -46,11 +46,23 @@ def run_verus(path, seed=0, rlimit=None, threads=8, extra=None, multiple_errors=
     return dict(cmd=' '.join(cmd), rc=p.returncode, diags=diags, out=out, wall=wall, stderr=other_stderr, raw_stdout=p.stdout if not out else '')
 
 
+def _enclosing_fn_name(lines, line):
+    for l in range(min(line, len(lines)), 0, -1):
+        m = re.search(r'\b(?:proof\s+)?fn\s+(\w+)', lines[l - 1])
+        if m and not lines[l - 1].lstrip().startswith('//'):
+            return m.group(1)
+    return None
+
+
 def classify(gen, run):
     """Returns dict(failures=[...], tool_errors=[...], verified, errors, functions={name: {...}}).
     failure: dict(kind, message, label (obligation name), fn (item label), props?, site, rendered)"""
     linemap = gen['linemap']
     failures, tool = [], []
+    try:
+        text_lines = open(gen['path']).read().split('\n')
+    except (KeyError, OSError):
+        text_lines = []
 
     def tag_of(line):
         if 1 <= line <= len(linemap):
@@ -83,7 +95,7 @@ def classify(gen, run):
         is_res = any(s in msg for s in RESOURCE)
         if is_res or not is_sem:
             tool.append(dict(kind='resource' if is_res else 'rustc', message=msg, rendered=d.get('rendered', ''),
-                             line=spans[0].get('line_start')))
+                             line=spans[0].get('line_start'), lines=[sp.get('line_start') for sp in spans]))
             continue
         # semantic failure: find the spec-labelled span (failed clause) and the code site
         label = None
@@ -104,7 +116,11 @@ def classify(gen, run):
         if owner is None:
             for sp in spans:
                 owner = owner or _owner(linemap, sp['line_start'])
-        failures.append(dict(message=msg, label=label, site=site, owner=owner, rendered=d.get('rendered', ''),
+        lemma = None
+        if all((tag_of(sp['line_start']) or ['x'])[0] == 'prelude' for sp in spans):
+            lemma = _enclosing_fn_name(text_lines, spans[0]['line_start'])
+            owner = None
+        failures.append(dict(message=msg, label=label, site=site, owner=owner, rendered=d.get('rendered', ''), lemma=lemma,
                              lines=[sp['line_start'] for sp in spans]))
     # per-function results from --output-json
     funcs = {}
